@@ -291,6 +291,11 @@ def gen_semantic_soup(rng):
         # array parameters and arrays that cannot exist
         lambda: "SUB SA (P%s())\nP%s(1) = 1\nEND SUB" % (rng.choice(["%", "$", "!"]), rng.choice(["%", "$", "!"])),
         lambda: "SA %s" % rng.choice([n + "()", "(" + n + "())", "ARR()", "(ARR())", n, n + "(1)"]),
+        # a parameter (scalar or array) with the name of its own procedure, and the call that goes with it
+        lambda: "FUNCTION %s%s (%s%s)\n%s\nEND FUNCTION" % (n.replace(".", ""), rng.choice(SEM_SUFFIX), n.replace(".", ""), rng.choice(["()", "", "%", "%()", "$()", " AS INTEGER"]),
+                                                             rng.choice(["PRINT %s(1)" % n.replace(".", ""), "%s = 1" % n.replace(".", ""), "%s(1) = 2" % n.replace(".", ""), ""])),
+        lambda: "SUB %s (%s%s)\nPRINT %s%s\nEND SUB" % (n.replace(".", ""), n.replace(".", ""), rng.choice(["()", "", "$()"]), n.replace(".", ""), rng.choice(["", "(1)"])),
+        lambda: "PRINT %s(%s)" % (n.replace(".", ""), rng.choice(["ARR()", n.replace(".", "") + "()", "1", "ARR(1)"])),
         lambda: "DIM %s(%s) AS %s" % (n, rng.choice(["2", "1 TO 2"]), rng.choice(["STRING * 3", "STRING", "INTEGER", "Card"])),
         lambda: "DIM %s(%s)" % (rng.choice([n, "BIG"]), rng.choice(["32767, 32767", "32767, 32767, 10", "-32768 TO 32767, 2000", "2000000000"])),
         lambda: "REDIM %s(%s)" % (rng.choice([n, "BIG2"]), rng.choice(["32767, 32767", "30000, 30000"])),
